@@ -22,11 +22,11 @@ import z3
 Z3_TIMEOUT_MS = 20000
 
 
-class PathEnd(Exception):
+class PathEnd(BaseException):    # BaseException: code under contract may catch Exception
     """Ends the current path without an outcome (infeasible, cut point reached)."""
 
 
-class EngineLimit(Exception):
+class EngineLimit(BaseException):
     """The engine cannot continue (path budget, unsupported construct)."""
 
 
@@ -630,6 +630,41 @@ def sym_float_of(x):
 def forall_int(fn, name="k!q"):
     k = z3.Int(name)
     return SymBool(z3.ForAll([k], tobool(fn(SymInt(k)))))
+
+
+class SymSet:
+    """set of integers as a z3 array Int -> Bool (ghost state such as 'indices of the files on disk')"""
+
+    def __init__(self, arr):
+        self.a = arr
+
+    @staticmethod
+    def fresh(name):
+        return SymSet(z3.Array(f"{name}!{next(Ctx.cur.fresh)}", z3.IntSort(), z3.BoolSort()))
+
+    @staticmethod
+    def _k(k):
+        return k.t if isinstance(k, SymInt) else z3.IntVal(int(k))
+
+    def has(self, k):
+        return SymBool(z3.Select(self.a, self._k(k)))
+
+    def __contains__(self, k):
+        return bool(self.has(k))
+
+    def add(self, k):
+        self.a = z3.Store(self.a, self._k(k), z3.BoolVal(True))
+
+    def discard(self, k):
+        self.a = z3.Store(self.a, self._k(k), z3.BoolVal(False))
+
+    def copy(self):
+        return SymSet(self.a)
+
+    def eq_comprehension(self, pred, name="k!set"):
+        """forall k: k in self <=> pred(k)"""
+        k = z3.Int(name)
+        return SymBool(z3.ForAll([k], z3.Select(self.a, k) == tobool(pred(SymInt(k)))))
 
 
 # ------------------------------------------------------------- sequences
